@@ -318,11 +318,20 @@ def strategy(spec):
             else:
                 tr = {"kind": tk, "seed": draw(st.integers(0, 10**6))}
             tsd, dsd = draw(sg.space_descs(kinds_t)), draw(sg.space_descs(kinds_d))
+            m_ = mesh(draw)
+            if m_["base"] == "multitrace":
+                # edge spaces on two of the three domains (closed box or open shell with the interface): the junction edges then have
+                # a neighbour outside the support; relabelling changes which neighbour has the smallest index
+                pair = draw(st.sampled_from([[0, 2], [1, 2], [0, 1]]))
+                tsd["sel"], dsd["sel"] = ["segments", pair], ["segments", pair if draw(st.booleans()) else draw(st.sampled_from([[0, 2], [1, 2], [0, 1]]))]
+                if draw(st.integers(0, 3)) > 0:
+                    tk = "relabel"
+                    tr = {"kind": tk, "seed": draw(st.integers(0, 10**6))}
             if tk == "relabel":
                 for sd in (tsd, dsd):
                     if sd.get("sel") and sd["sel"][0] == "support":
                         sd["sel"] = ["segments", [0]]  # element-index selectors do not follow an element permutation
-            return {"mesh": mesh(draw), "transform": tr, "fam": fam, "op": op, "k": kdraw(draw), "test": tsd,
+            return {"mesh": m_, "transform": tr, "fam": fam, "op": op, "k": kdraw(draw), "test": tsd,
                     "trial": dsd, "reg": draw(st.integers(2, 6)), "sing": draw(st.integers(2, 5))}
         return s()
 
